@@ -17,6 +17,9 @@ from pyvc.symexec import SV, owner_of, slot_of
 def declare(spec):
     spec.ghost["loc"] = "val"
     spec.ghost["filed"] = "int"
+    # counted_class(i): the customer class under which the state tracker currently counts customer i (None: not counted).
+    # Written only by the ghost statements of the tracker contracts (accept / classchange / release).
+    spec.ghost["counted_class"] = "val"
     spec.on_event = on_event
     spec.on_alloc = on_alloc
 
